@@ -15,7 +15,35 @@ RT = "harness/nvm_rt_h.c"
 SHAPE = "B(module shape: <=1 string(<=2 bytes), <=3 code bytes, <=1 function, <=1 debug entry, <=1 import(<=1 param))"
 
 
+def shape_obligations(prop):
+    """real serializer / loader pair on FIXED module shapes with arbitrary contents (harness/ser_rt_h.c): all memcpy lengths concrete"""
+    fns = ["nvm_serialize", "nvm_deserialize", "nvm_crc32", "nvm_module_new", "nvm_add_string", "nvm_append_code", "nvm_add_function",
+           "nvm_add_debug_entry", "nvm_add_import", "serialize_string_pool", "serialize_functions", "serialize_debug", "serialize_imports"]
+    common = dict(prop=prop, harness="harness/ser_rt_h.c", include_repo=["src"], unwind=12,
+                  unwindset=["crc32_init.0:257", "crc32_init.1:257", "nvm_crc32.0:260"], object_bits=10, functions=fns, min_checks=50,
+                  mem_gb=20, weight=40, backends=["minisat", "kissat"])
+    if prop == "C19":
+        return [dict(common, id="C19.ser.det.shape", entry="h_ser_det", timeout=900, must_have=[r"C19\.ser\.det", r"COVER"],
+                     strength="B(one module shape: strings of 3 and 0 bytes, 5 code bytes, 1 function, 1 debug entry, 1 import with 2 parameter types; contents arbitrary)")]
+    # round trip: the loader recomputes the checksum the serializer stored - two CRC circuits over the same bytes; the cost grows
+    # with the file size, so the shape is split by section group (strings 3 min, the other two: thorough tier)
+    obs = []
+    for bit, nm, what, tier in ((1, "strings", "strings of 3 and 0 bytes (empty LAST string)", "quick"),
+                                (2, "code", "5 code bytes + 1 function entry", "thorough"),
+                                (4, "meta", "1 debug entry + 1 import with 2 parameter types", "thorough")):
+        obs.append(dict(common, id="C10.rt.shape." + nm, entry="h_ser_rt", defines={"SER_SHAPE": bit}, timeout=2400, tier=tier,
+                        must_have=[r"C10\.rt", r"COVER"], strength="B(one module shape: %s; contents, flags, entry point arbitrary)" % what))
+    return obs
+
+
 def obligations(repo):
+    # C10.rt / C10.idem / C10.rt.fields.* with SYMBOLIC sizes (harness/nvm_rt_h.c) stay unregistered (see below); the fixed-shape
+    # variant C10.rt.shape closes.
+    return c10_exit.exit_obligations("C10", repo) + shape_obligations("C10")
+
+
+def _unused(repo):
+
     # C10.rt / C10.idem / C10.rt.fields.* (harness/nvm_rt_h.c: real nvm_serialize -> nvm_deserialize on a bounded module
     # shape) are NOT registered: memcpy with a symbolic length into a symbolic-size buffer exhausts 12 GB in propositional
     # reduction even for <= 3-byte payloads, with or without the real CRC (measured: 5 section kinds x 900 s / OOM).
